@@ -341,6 +341,7 @@ def loop_runs() -> Any:
     def fin(d: Dict[str, Any]) -> Dict[str, Any]:
         base = d["base"] // MIN * MIN + int(d["bsec"] * 10**6)
         sources = []
+        retime: List[Dict[str, Any]] = []
         for si, (lat, ents) in enumerate(d["sources"]):
             es = []
             for j, (mk, rest, off) in enumerate(ents):
@@ -358,6 +359,13 @@ def loop_runs() -> Any:
                 es.insert(0, {"id": f"o{si}", "t_off_us": -5 * 10**6, "naive": False, "add_at": 0, "remove_at": None})
             sources.append({"kind": kind, "entries": es, "fail_polls": [], "list_latency": 0.0 if kind == "label" else lat,
                             "live_list": bool(d["shot_first"]) and kind != "label"})
+            if kind == "label" and d["retime"] and d["h"] >= 3:
+                # mid-way through the second full minute the first label entry gets another minute field, in place
+                loc = local_of(base, es[0]["offset"])
+                new = {"all": "*", "none": str((loc.minute + 30) % 60), "third": str((loc.minute + 3) % 60)}[d["retime"]] + " * * * *"
+                retime.append({"at_s": (MIN - base % MIN) / 10**6 + 90.0, "idx": 0, "cron": new, "id": es[0]["id"]})
+        if retime:
+            return {"loop": True, "base_us": base, "horizon_min": d["h"], "sources": sources, "latencies": d["kick_lat"], "kick_fail": [], "retime": retime}
         return {"loop": True, "base_us": base, "horizon_min": d["h"], "sources": sources, "latencies": d["kick_lat"], "kick_fail": []}
 
     ent = st.tuples(st.sampled_from(["cur", "next", "next", "next2", "any", "even", "pair"]), st.sampled_from(["* * * *", "* * * *", "*/1 * * *"]),
@@ -369,6 +377,7 @@ def loop_runs() -> Any:
         # the first source is the label-based one: all its entries are declared on ONE task, each with an offset of its own (or none)
         "label": st.sampled_from([False, True]),
         "shot_first": st.sampled_from([False, False, True]),
+        "retime": st.sampled_from([None, None, "all", "none", "third"]),
         # how long the broker takes to accept a message: a send that is still in progress when the next matching minute arrives
         # does not make the schedule any less due
         "kick_lat": st.sampled_from([[0.0], [0.0], [0.0], [90.0], [61.0, 0.0], [0.5]]),
@@ -397,14 +406,23 @@ def run_loop_case(case: Dict[str, Any]) -> Outcome:
         ev = max(p[j]["ret"] for p in polls)
         crossed = crossed or (start // MIN != ev // MIN)
         listed = [i for p in polls for i in p[j]["listed"] if "cron" in ent[i]]
-        want = sorted(i for i in listed if cron.matches(ent[i]["cron"], local_of(ev, ent[i]["offset"])))
+        def cron_at(i: str, us: int) -> str:
+            # the expression an entry had when ITS source was asked in this pass (a slow sibling source delays only the evaluation)
+            for rt in case.get("retime", ()):
+                asked = next((p[j]["t"] for p in polls if i in p[j]["listed"]), us)
+                if rt["id"] == i and asked >= case["base_us"] + int(rt["at_s"] * 10**6):
+                    return rt["cron"]
+            return ent[i]["cron"]
+
+        want = sorted(i for i in listed if cron.matches(cron_at(i, ev), local_of(ev, ent[i]["offset"])))
         got = sorted(k["tag"] for k in res["kicks"] if abs(k["t"] - ev) <= 2 and k["tag"] in ent and "cron" in ent[k["tag"]])
         if want != got:
             out.add("C13.a", f"pass {j}: listing started {clock.from_us(start).time().isoformat()} and completed {clock.from_us(ev).time().isoformat()} UTC; sent at that instant "
-                             f"{[(i, ent[i]['cron'], ent[i]['offset']) for i in got]}, but the expressions matching that minute are {[(i, ent[i]['cron'], ent[i]['offset']) for i in want]}")
+                             f"{[(i, cron_at(i, ev), ent[i]['offset']) for i in got]}, but the expressions matching that minute are {[(i, cron_at(i, ev), ent[i]['offset']) for i in want]}"
+                             + (f" (entry {case['retime'][0]['id']} was re-timed in place to {case['retime'][0]['cron']!r} at +{case['retime'][0]['at_s']} s)" if case.get("retime") else ""))
             break
     out.nontrivial = crossed or any(s_["kind"] == "label" and len({repr(e.get("offset")) for e in s_["entries"]}) > 1 for s_ in case["sources"])
-    out.classes = ["loop"] + (["label_source_mixed_offsets"] if any(s_["kind"] == "label" and len({repr(e.get("offset")) for e in s_["entries"]}) > 1 for s_ in case["sources"]) else []) + (["listing_crossed_minute_boundary"] if crossed else []) + (["slow_source"] if any(s["list_latency"] for s in case["sources"]) else []) + (["one_shot_listed_before_crons_live_list"] if any(s_.get("live_list") for s_ in case["sources"]) else []) + (["send_outlasts_a_minute"] if max(case.get("latencies") or [0.0]) > 60 else [])
+    out.classes = ["loop"] + (["label_source_mixed_offsets"] if any(s_["kind"] == "label" and len({repr(e.get("offset")) for e in s_["entries"]}) > 1 for s_ in case["sources"]) else []) + (["listing_crossed_minute_boundary"] if crossed else []) + (["slow_source"] if any(s["list_latency"] for s in case["sources"]) else []) + (["label_entry_retimed_in_place"] if case.get("retime") else []) + (["one_shot_listed_before_crons_live_list"] if any(s_.get("live_list") for s_ in case["sources"]) else []) + (["send_outlasts_a_minute"] if max(case.get("latencies") or [0.0]) > 60 else [])
     out.trace = {"kicks": [[k["tag"], k["t"] - case["base_us"]] for k in res["kicks"]][:12]}
     return out
 
